@@ -253,3 +253,17 @@ def regression_witnesses(c):
         if not good:
             c.violation('regression-of-repaired-finding', {'kind': 'impl-vs-spec', 'input': k['input'], 'want': k['want'], 'impl': got,
                                                            'repaired_by': k.get('fixed_by')})
+
+
+def impl_patient(c, lines):
+    """c.impl, but an answer ("hang") is re-asked alone with a long timeout: some unit
+    expressions need seconds of big-rational arithmetic and a loaded machine must not turn
+    that into a finding; only a case that still does not answer within 120 s stays a hang"""
+    outs = c.impl('units', lines)
+    slow = [i for i, o in enumerate(outs) if o.startswith('("hang")')]
+    if slow:
+        again = c.impl('units', [lines[i] for i in slow], timeout=120, workers=4)
+        for i, o in zip(slow, again):
+            outs[i] = o
+        c.dist['slow-case-reasked'] = c.dist.get('slow-case-reasked', 0) + len(slow)
+    return outs
